@@ -1,6 +1,7 @@
 package main
 
 import (
+	"strings"
 	"fmt"
 	"math/rand"
 	"sort"
@@ -17,6 +18,20 @@ type concModel struct {
 	mk     func(variant int) gonnx.Tensors
 	outs   []string
 	nVar   int
+}
+
+func paramSnapshot(m *gonnx.Model) string {
+	ps := m.VerifParameters()
+	var ks []string
+	for k := range ps {
+		ks = append(ks, k)
+	}
+	sort.Strings(ks)
+	var ss []string
+	for _, k := range ks {
+		ss = append(ss, k+"="+snapT(ps[k]))
+	}
+	return strings.Join(ss, " | ")
 }
 
 func genC17(dir, tier string, seed int64) {
@@ -40,9 +55,9 @@ func genC17(dir, tier string, seed int64) {
 	}
 	res := goOnlyResult{Stream: "C17_goroutines", Rule: "for the sample models and single-node models from every fixture (all inputs after the first as shared weights; Scaler/LinearRegressor/Constant attribute tensors included): 2, 4, 8 and 16 goroutines released by one barrier, each performing a sequence of Runs on ONE shared Model with its own input tensors, with concurrent NewModelFromBytes calls in the background; every output compared bit for bit with the sequential baseline; the binary is built with the Go race detector (a report is a violation)", Violations: []string{}}
 	rounds := 1
-	runsPer := 3
+	runsPer := 24
 	if tier == "thorough" {
-		rounds, runsPer = 12, 8
+		rounds, runsPer = 12, 40
 	}
 	for _, cm := range models {
 		base := map[int]string{}
@@ -60,9 +75,10 @@ func genC17(dir, tier string, seed int64) {
 			continue
 		}
 		for round := 0; round < rounds; round++ {
+			pick := []int{4, 8, 16}[r.Intn(3)]
 			for _, nG := range []int{2, 4, 8, 16} {
-				if tier != "thorough" && nG != []int{2, 4, 8, 16}[r.Intn(4)] && cm.name[:3] == "fix" {
-					continue // quick tier: one goroutine count per fixture model, all four for the sample models
+				if tier != "thorough" && nG != pick && cm.name[:3] == "fix" {
+					continue // quick tier: one goroutine count per fixture model (always one), all four for the sample models
 				}
 				res.N++
 				shared, err := gonnx.NewModelFromBytes(cm.bytes)
@@ -105,10 +121,23 @@ func genC17(dir, tier string, seed int64) {
 						}
 					}(g, cm)
 				}
+				p0 := paramSnapshot(shared)
 				close(start)
 				wg.Wait()
 				close(stop)
 				<-loaderDone
+				// afterwards: the weights are what they were, and a sequential Run still gives the baseline
+				if bad == "" {
+					if p1 := paramSnapshot(shared); p1 != p0 {
+						bad = fmt.Sprintf("%s: the model's weights changed during %d concurrent goroutines: %.300s -> %.300s", cm.name, nG, p0, p1)
+					}
+				}
+				if bad == "" {
+					out, err, _ := runRec(shared, cm.mk(0))
+					if s := outSnap(out, err, cm.outs); s != base[0] {
+						bad = fmt.Sprintf("%s: a sequential Run after the concurrent phase (%d goroutines) differs from the baseline: %.300s  vs  %.300s", cm.name, nG, s, base[0])
+					}
+				}
 				if bad != "" {
 					res.Violations = append(res.Violations, bad)
 				}
